@@ -335,6 +335,16 @@ class SymBool:
 
     __rmul__ = __mul__
 
+    def __add__(self, o):        # sum(cond for …) counts true conditions
+        return int(bool(self)) + o
+
+    __radd__ = __add__
+
+    def __int__(self):
+        return int(bool(self))
+
+    __index__ = __int__
+
     def __hash__(self):
         return hash(bool(self))
 
@@ -414,6 +424,8 @@ class Sym:
         if e.numer.is_ground:
             return
         ctx = self.ctx
+        if ctx.nodecide:      # spec side: formal division of rational functions
+            return
         for d in ctx.nonzero_elems:
             q = e / d
             if q.numer.is_ground or ctx.status(SymBool(ctx, q, "eq").z3(), ("nzq", q)) == "F":
